@@ -400,10 +400,12 @@ type cfgInfo struct {
 	backEdge map[[2]int]bool
 	headers  map[*ssa.BasicBlock][]*ssa.BasicBlock // header -> back edge sources
 	loopBody map[*ssa.BasicBlock]map[*ssa.BasicBlock]bool
+	loopExt  map[*ssa.BasicBlock]map[*ssa.BasicBlock]bool // natural loop plus break tails (blocks run on the way out)
 }
 
 func analyzeCFG(fn *ssa.Function) *cfgInfo {
-	ci := &cfgInfo{backEdge: map[[2]int]bool{}, headers: map[*ssa.BasicBlock][]*ssa.BasicBlock{}, loopBody: map[*ssa.BasicBlock]map[*ssa.BasicBlock]bool{}}
+	ci := &cfgInfo{backEdge: map[[2]int]bool{}, headers: map[*ssa.BasicBlock][]*ssa.BasicBlock{}, loopBody: map[*ssa.BasicBlock]map[*ssa.BasicBlock]bool{},
+		loopExt: map[*ssa.BasicBlock]map[*ssa.BasicBlock]bool{}}
 	for _, b := range fn.Blocks {
 		for _, s := range b.Succs {
 			if s.Dominates(b) {
@@ -433,6 +435,40 @@ func analyzeCFG(fn *ssa.Function) *cfgInfo {
 			}
 		}
 		ci.loopBody[h] = body
+		// break tails: blocks outside the natural loop that are only reachable from it and are not the
+		// loop's ordinary exit target (the successor of the header outside the loop)
+		ext := map[*ssa.BasicBlock]bool{}
+		for b := range body {
+			ext[b] = true
+		}
+		var done *ssa.BasicBlock
+		for _, s := range h.Succs {
+			if !body[s] {
+				done = s
+			}
+		}
+		changed := true
+		for changed {
+			changed = false
+			for b := range ext {
+				for _, e := range b.Succs {
+					if ext[e] || e == done {
+						continue
+					}
+					ok := true
+					for _, p := range e.Preds {
+						if !ext[p] {
+							ok = false
+						}
+					}
+					if ok {
+						ext[e] = true
+						changed = true
+					}
+				}
+			}
+		}
+		ci.loopExt[h] = ext
 	}
 	// reverse postorder ignoring back edges
 	visited := map[*ssa.BasicBlock]bool{}
@@ -728,13 +764,30 @@ func (fc *FuncCtx) flow(fr *Frame, ci *cfgInfo, b, s *ssa.BasicBlock, st *State)
 		return
 	}
 	// exits: b in loop body of header h, s not in it
-	for h, body := range ci.loopBody {
+	for h, body := range ci.loopExt {
 		if body[b] && !body[s] {
 			k := fc.loopOrd[h]
 			for _, u := range fc.spec.LoopUse[k] {
 				if u.Where == "exit" {
 					env := fc.loopEnv(fr, h, st, 0)
 					fc.applyUse(st, env, u)
+				}
+			}
+			// loop postconditions: proved on every exit edge, then available after the loop
+			for i, u := range fc.spec.LoopUse[k] {
+				if u.Where == "exitassert" {
+					env := fc.loopEnv(fr, h, st, 0)
+					t, err := env.EvalBool(u.E)
+					if err != nil {
+						panic(specError{fmt.Sprintf("loop %d exitassert (line %d): %v", k, u.Line, err)})
+					}
+					label := u.Label
+					if label == "" {
+						label = fmt.Sprint(i + 1)
+					}
+					fc.v.addObligation(&Obligation{Name: fmt.Sprintf("%s#loop%d.exit.%s", fc.short, k, label), Kind: "inv.exit", Func: fc.key,
+						Assume: st.pc, Goal: t, Expect: "unsat", Src: u.Src})
+					st.assume(fc.v.c, t)
 				}
 			}
 		}
